@@ -421,6 +421,42 @@ def unpack_forced(sh: Shape, ty: int, body: bytes, measure: bool = False, scale:
     return out
 
 
+_accept_nbrs: dict[tuple, Any] = {}
+
+
+def accept_open(sh: Shape, body: bytes, multisession: bool = False) -> Outcome:
+    """What `Peer._establish` does with the peer's OPEN once it is read: `Negotiated.received(open)` (the
+    negotiation) and `Protocol.validate_open()`'s `Negotiated.validate(neighbor)`, on a fresh Negotiated of a
+    neighbor like the shape's (optionally with `capability { multi-session enable; }`): decoded, negotiated and
+    accepted, or refused with a NOTIFICATION — nothing else."""
+    from exabgp.bgp.message.open.capability.negotiated import Negotiated
+    from exabgp.util.enumeration import TriState
+
+    key = (sh.name, multisession)
+    if key not in _accept_nbrs:
+        _, n = sessions.make_config(local_as=65000, peer_as=65001, families=sh.families, add_path=sh.addpath)
+        if multisession:
+            n.capability.multi_session = TriState.TRUE
+        _accept_nbrs[key] = n
+    n = _accept_nbrs[key]
+    stage = ['unpack']
+
+    def go() -> str:
+        msg = Message.unpack(1, memoryview(body), sh.neg)
+        neg = Negotiated.make_negotiated(n, Direction.IN)
+        stage[0] = 'negotiate:sent'
+        neg.sent(sessions.open_of(n))
+        stage[0] = 'negotiate:received'
+        neg.received(msg)
+        stage[0] = 'validate'
+        err = neg.validate(n)
+        if err is not None:
+            raise Notify(*err)
+        return 'open-accepted'
+
+    return _guard(go, stage, False, len(body))
+
+
 def unpack_only(sh: Shape, ty: int, body: bytes, measure: bool = False) -> Outcome:
     reset_caches()
     stage = ['unpack']
